@@ -38,7 +38,11 @@ def main(tier):
                 parts.append("|" + "|".join(" h " for _ in range(cols)) + "|\n|" + "|".join(rng.choice(["-", ":-", "-:", ":-:"]) for _ in range(cols)) + "|\n" +
                              "".join("|" + "|".join(" " + rng.choice(["c", "", "*e*", "[^1]", "`|`"]) + " " for _ in range(rng.choice([cols, cols - 1, cols + 1]) or 1)) + "|\n" for _ in range(rows)))
             elif k == "foot":
-                parts.append(f"x[^{rng.choice('ab1')}] y[^{rng.choice('ab1')}]\n\n[^a]: A\n\n    more\n\n[^b]: > q[^1]\n\n[^1]: - l\n")
+                parts.append(rng.choice([
+                    f"x[^{rng.choice('ab1')}] y[^{rng.choice('ab1')}]\n\n[^a]: A\n\n    more\n\n[^b]: > q[^1]\n\n[^1]: - l\n",
+                    # a definition written inside a definition (stays in place: known finding F22), inside a quote, inside a list
+                    "x[^1]\n\n[^1]: outer\n\n    [^2]: inner\n", "x[^1][^2]\n\n[^1]: outer\n\n    [^2]: inner\n\n    tail\n",
+                    "x[^1]\n\n> [^1]: in quote\n\n- [^2]: in list\n\ny[^2]\n", "x[^1]\n\n[^1]: a\n\n    [^2]: b\n\n        [^3]: c\n\ny[^3]\n"]))
             elif k == "list":
                 parts.append("- a\n\n  b\n- c\n  1. d\n  2. e\n\n     f\n")
             elif k == "img":
